@@ -145,8 +145,9 @@ pub fn udp_scenario(ch: &mut Chooser) -> Exec {
     let limit = |m: u32| m.saturating_sub(hdr).saturating_sub(8) as i64;
     let path_limit = if dst_kind == 0 { limit(lomtu) } else { limit(mtu) };
     let other_limit = if dst_kind == 0 { limit(mtu) } else { limit(lomtu) };
-    let size_opts: Vec<i64> = vec![path_limit - 1, path_limit, path_limit + 1, other_limit, other_limit + 1];
-    let size = size_opts[ch.choose("payload(limit-1|limit|limit+1|other path's limit|other path's limit+1)", size_opts.len())].clamp(1, 70_000) as usize;
+    // sizes around the limits, and sizes whose low 16 / 17 bits alone would fit
+    let size_opts: Vec<i64> = vec![path_limit - 1, path_limit, path_limit + 1, other_limit, other_limit + 1, 65_535, 65_536, 65_536 + path_limit.min(1000), 131_072 + 1];
+    let size = size_opts[ch.choose("payload(limit-1|limit|limit+1|other path's limit|other path's limit+1|65535|65536|65536+small|131073)", size_opts.len())].clamp(1, 140_000) as usize;
 
     let kc = KernelConfig::default().mtu(mtu).loopback_mtu(lomtu);
     let mut net = Net::with_config(kc);
